@@ -16,6 +16,8 @@ RULE = ('graphs = all specs with <=n containers of kind {list,dict,obj,tuple,set
         'declaration order; limits = max_variables{0,1,2,3,5,1000} x max_var_depth{0,1,2,3,5} and max_collection_size{0,1,2} x '
         'max_string_length{0,1,5}; parametric families: list/tuple/set/dict/object of k elements, chain of depth k, string of length k, '
         'k in {limit-1,limit,limit+1}; non-trivial = a cap actually cut something (budget exhausted, string cut, collection cut, depth cut)')
+RULE_ADDED = "rounds 4-5: family 'text' - dictionary keys as child names, log field text, watch error text against the string limit"
+RULE = RULE + ' ; ' + RULE_ADDED
 ASSUMPTIONS = ['depth convention: locals are level 1; a variable is too deep only if its shortest reference distance exceeds max_var_depth',
                'which elements of a capped set are kept is a don\'t-care', 'max_var_depth in {0,1} removes the locals themselves: only the upper bounds are checked there']
 
